@@ -354,6 +354,9 @@ def run(cx):
     # swapped the sender releases packets the receiver still holds and sends more than the receiver reserved
     from props.shared import emitter_wiring
     emitter_wiring(cx, "C06.o")
+    # the receiver enforces the limit its side advertised (PacketReceiver::new hands it on unchanged)
+    from props.shared import ctor_initial_state
+    ctor_initial_state(cx, "C06.p")
     # a stored packet that can never be delivered (impossible parent leads) is released from the counter
     # when the window passes it but stays held in the delivery entries: the datagram validator's clauses
     from props.C03 import check_validators
